@@ -171,3 +171,44 @@ Definition holds (c : case) : bool :=
            | None => true
            end
       else true).
+
+(** * Histories on one loader instance *)
+
+Record hstep := HStep {
+  hs_load : option cfg_text;     (* Some c: load_config(text of c) was called before this emission; None: not called *)
+  hs_doc : doc;                  (* resolved document of the emitted file, CLI view *)
+  hs_B : list defbody;
+  hs_safe : bool;                (* the suffixes of the configuration current at this step are identifier-like *)
+  hs_same : bool;                (* text returned by the real emit_js = JS printer with from_config(parse_config(current text)) *)
+  hs_tdts : text_exports;        (* export lines of the declaration file printed from the current configuration text *)
+  hs_temit : text_exports        (* export lines of the text the real emit_js returned at this step *)
+}.
+
+(* the model's fold: the configuration current at each step *)
+Fixpoint agree_hist (cur : cfg_text) (h : list hstep) : bool :=
+  match h with
+  | [] => true
+  | st :: r =>
+      let cur' := match hs_load st with Some c => c | None => cur end in
+      match run_loader cur' [LEmit (hs_doc st) (hs_B st)] with
+      | [(_, _, _, ops)] =>
+          hs_same st
+          && (if hs_safe st then
+                text_agrees ops (hs_temit st)
+                && text_agrees (dts_of_config cur' (hs_doc st) (hs_B st)) (hs_tdts st)
+              else true)
+      | _ => false
+      end
+      && agree_hist cur' r
+  end.
+
+(* the property per step, on the implementation's outputs only *)
+Definition holds_hist (h : list hstep) : bool :=
+  forallb (fun st =>
+    if hs_safe st then
+      subset_str (fst (hs_tdts st)) (fst (hs_temit st)) && list_eqb str_eqb (snd (hs_tdts st)) (snd (hs_temit st))
+    else true) h.
+
+Inductive tcase := One (c : case) | Hist (h : list hstep).
+Definition agree_t (t : tcase) : bool := match t with One c => agree c | Hist h => agree_hist None h end.
+Definition holds_t (t : tcase) : bool := match t with One c => holds c | Hist h => holds_hist h end.
